@@ -147,19 +147,23 @@ Definition failing27 (l : list bool) : list nat := failing_from27 0 l.
    a reference typed cur (then the row says `real`).
        if obj._discriminator_ is not None:                 (has_discr: the tree has a discriminator; a value such as 0 or '' counts)
            if obj._subclasses_:
-               if not issubclass(entity, cls) and not issubclass(cls, entity): ObjectNotFound
+               if not issubclass(entity, cls) and not issubclass(cls, entity):
+                   if obj not in seeds or not cls._subclasses_.intersection(entity._subclasses_): ObjectNotFound      (since fix 8097451)
                if obj in seeds: obj._load_()               (the row is parsed; _get_from_identity_map_ refines the class)
            if not isinstance(obj, entity): ObjectNotFound                                                                             *)
 Inductive found := Found (c : nat) | NotFound | ClassChangeError.
 
 Definition issub (s : schema) (a b : nat) : bool := (a =? b) || nmem b (all_bases s a).       (* issubclass(a, b) *)
 
+(* cls._subclasses_.intersection(entity._subclasses_) is not empty *)
+Definition common_subclass (s : schema) (a b : nat) : bool := existsb (fun c => nmem c (subclasses s b)) (subclasses s a).
+
 Definition find_in_cache (s : schema) (has_discr : bool) (e cur : nat) (seed : bool) (real : nat) : found :=
   if has_discr then
     let after : option (option nat) :=                       (* None = ObjectNotFound, Some None = class change error *)
       match subclasses s cur with
       | [] => Some (Some cur)
-      | _ => if negb (issub s e cur) && negb (issub s cur e) then None
+      | _ => if negb (issub s e cur) && negb (issub s cur e) && (negb seed || negb (common_subclass s cur e)) then None
              else if seed then Some (refine s cur real) else Some (Some cur)
       end in
     match after with
@@ -187,8 +191,9 @@ Definition attr_get_class (s : schema) (guarded : bool) (cur : nat) (seed : bool
     end
   else Some cur.
 
-(* iterating a many-to-many collection hands out the placeholders built from the link table as they are (no guard on that path) *)
-Definition collection_item_class (cur real : nat) : nat := cur.
+(* iterating a many-to-many collection: since fix 50e342a Set.copy calls rentity._load_many_ on the placeholders built from the link table,
+   which loads and thereby refines them *)
+Definition collection_item_class (s : schema) (cur real : nat) : nat := match refine s cur real with Some c => c | None => cur end.
 (* Entity.__setstate__-side: a reference restored from a pickle is an object of the declared class marked as loaded; nothing refines it *)
 Definition unpickled_ref_class (cur real : nat) : nat := cur.
 
